@@ -171,6 +171,10 @@ func runC17(r *Report, tier string) {
 				why = "no lower bound on the RSA modulus size on this path"
 			case fam.family == "ecdsa" && isVerifier && !cc.ecdh:
 				why = "an ECDSA verifier is built without ok(pub.ECDH()) (point validity)"
+			case fam.family == "ecdsa" && !isVerifier && cc.ecdh:
+				why = "an ECDSA signer additionally requires ok(pub.ECDH()): keys of the family on curves crypto/ecdh does not support are refused (the requirement belongs to verifiers only)"
+			case fam.family != "rsa" && cc.rsaBound >= 0:
+				why = "a modulus-size requirement on a non-RSA family"
 			case !strings.Contains(strings.ToLower(cc.typ), fam.family):
 				why = "constructed type " + cc.typ + " does not belong to the " + fam.family + " family"
 			}
@@ -178,6 +182,19 @@ func runC17(r *Report, tier string) {
 			tables[cn][alg] = cc
 			if cc.rsaBound >= 0 {
 				bounds[cn][cc.rsaBound] = true
+			}
+			// the object holds the caller's key itself (the asserted key, or
+			// the public half the key reports): everything derived from the
+			// key later (curve, sizes) is the key's own
+			if p.keyField != nil {
+				ok := false
+				kf := p.keyField
+				if kf.Op == "res" && kf.S == "0" && kf.Args[0].Op == "typeassert" {
+					kf = kf.Args[0].Args[0]
+				}
+				ks := kf.String()
+				ok = ks == "$1" || ks == "call<invoke:crypto.Signer.Public>($1)"
+				r.ob("R17.1", fmt.Sprintf("%s:key-field:%d:%s", cn, alg, p.id), fn, p.ret, "the constructed object stores the key it was given (or its reported public half), not a derived copy").check(ok, truncate(p.keyField.String(), 100), "key field holds "+truncate(p.keyField.String(), 200))
 			}
 			// R17.3
 			o3 := r.ob("R17.3", fmt.Sprintf("%s:alg-field:%d:%s", cn, alg, p.id), fn, p.ret, "the object records the requested algorithm")
@@ -255,6 +272,7 @@ type vpath struct {
 	ret      *ssa.Return
 	id       string
 	algField string
+	keyField *Term // term stored in the key field
 }
 
 func (P *Prog) ctorVPaths(fn *ssa.Function, m map[string]*Term, depth int) []*vpath {
@@ -281,6 +299,11 @@ func (P *Prog) ctorVPaths(fn *ssa.Function, m map[string]*Term, depth int) []*vp
 							af = af.subst(m)
 						}
 						vp.algField = af.String()
+						kf := p.eng.loadPath(a, []string{"key"}, p.ret)
+						if m != nil {
+							kf = kf.subst(m)
+						}
+						vp.keyField = P.resolveValue(kf)
 					}
 				}
 			}
